@@ -7,7 +7,10 @@ functions the two *reach* (transitively, closures included) are equal after (a) 
 
 SUFFIXES = ('_with_construction_statistics', '_and_construction_statistics', '_with_statistics', '_with_stats')
 STATS_OK = ('ConstructionStatistics::', 'InsertionStatistics::', '::record_', 'Default>::default', '::default',
-            'DelaunayTriangulationConstructionErrorWithStatistics')
+            'DelaunayTriangulationConstructionErrorWithStatistics',
+            # derived / std-trait plumbing of crate types (copying a statistics sample, formatting an error) is not "work"
+            ' as std::clone::Clone>::clone', ' as std::fmt::Debug>::fmt', ' as std::fmt::Display>::fmt',
+            ' as std::cmp::PartialEq>::eq', ' as std::convert::From<')
 
 
 def _fam(prog, q):
